@@ -1,4 +1,4 @@
-import argparse, importlib, json, os, re, sys, time, traceback, warnings
+import os, argparse, importlib, json, os, re, sys, time, traceback, warnings
 import common as C
 from common import Ctx, Failure
 
@@ -54,6 +54,12 @@ def run(ctx, mod):
     if not res["ok"]:
         broken.append({"what": "theorem file Properties/%s.v does not check" % prop,
                        "failed_at": res.get("failed_at"), "detail": res.get("error")})
+    # 2b. thorough tier: the independent checker re-checks the compiled theorems and everything they depend on
+    chk = None
+    if res["ok"] and not ctx.quick and os.environ.get("VERIF_NO_COQCHK") != "1":
+        chk = C.coqchk(prop)
+        if not chk["ok"]:
+            broken.append({"what": "coqchk rejects Properties/%s.vo or a file it depends on" % prop, "detail": chk["log"][-800:]})
     # 3. correspondence model <-> implementation
     cor = None
     try:
@@ -175,6 +181,10 @@ def run(ctx, mod):
            "broken": [b["what"] for b in broken],
            "search_evaluations": searched,
            "property_oracle_on_correspondence_cases": oracle_checked, "property_oracle_crashes": oracle_crashes}
+    if chk:
+        cov["coqchk"] = {"cmd": f"coqchk -silent -o -Q . SX SX.Properties.{prop}", "accepted": chk["ok"], "seconds": chk["seconds"],
+                         "axioms_in_the_checked_context": chk["axioms"], "type_in_type": chk["tit"], "unsafe_fixpoints": chk["unsafe"],
+                         "assumed_positivity": chk["pos"]}
     if cor:
         for k in ("evaluations", "distinct_nontrivial", "rule", "samples", "distribution", "traces_validated_against_impl",
                   "exhaustive", "exact_agreements", "tolerance_agreements", "model_runner"):
